@@ -1,4 +1,5 @@
 import IRModel.Lemmas.WrapGlue
+import IRModel.Lemmas.WrapC05
 /-!
 # Wrapper-level theorems (per-protocol `encode()` / `decode()` bodies inside the model)
 
@@ -24,6 +25,19 @@ theorem C01_wrapper (t : Tables) (w : Wrapper) (tol : Match.Tol) (htol : tol.ok)
   exact C01_wrapper_spec t w tol htol hw p hS u hu hr
 
 
+/-- **C05 at wrapper level**, from the kernel-checked obligations of one protocol: for EVERY assignment of in-width
+    values to the `_parameters` fields (every frame obtained from a valid one by substituting data symbols, inside
+    checksum, complement or constant fields too), a history-free decoder of the protocol either raises a library error
+    or returns a code whose reported parameters re-encode to exactly that frame. -/
+theorem C05_wrapper (t : Tables) (w : Wrapper) (tol : Match.Tol) (htol : tol.ok) (hw : wfAll t tol = true)
+    (hok : c05OK t w = true) (V : String × Nat × Nat → Nat) (hfit : ∀ prm ∈ t.params, V prm < 2 ^ widthP prm) :
+    ∃ frame, Encode.buildPacket t (t.params.map (fun prm => Encode.Item.field (V prm) (widthP prm))) = .ok frame ∧
+      (∀ e, (decodeP t w { last := none, tol := tol } frame).result = .error e → e.isLibrary = true) ∧
+      (∀ c, (decodeP t w { last := none, tol := tol } frame).result = .ok c →
+        firstFrame t w (fun n => (((c.get (Props.C01.viewKey n)).getD 0 : Nat) : Int)) = .ok frame) := by
+  obtain ⟨p, hS⟩ := c05OK_spec t w hok
+  exact C05_wrapper_spec t w tol htol hw p hS V hfit
+
 /-- non-vacuity: a two-field toy protocol (pulse distance, 8-bit function + its complement, `decode()` re-checks the
     complement) meets both obligations -/
 def toyT : Tables :=
@@ -43,6 +57,11 @@ def toyW : Wrapper :=
                   (.leaf [.setLastCode] (.ret [("F", .field "F"), ("F_CHECKSUM", .field "F_CHECKSUM")] true)),
     treeSome := .leaf [] .retOther }
 
-example : wfAll toyT ⟨20, 1⟩ = true ∧ c01OK toyT toyW = true := by decide +kernel
+example : wfAll toyT ⟨20, 1⟩ = true ∧ c01OK toyT toyW = true ∧ c05OK toyT toyW = true := by decide +kernel
+
+/-- and the same toy protocol WITHOUT the complement check in `decode()` fails the C05 obligation (the unchecked field is
+    not forced by any comparison) while still meeting the C01 one -/
+example : c05OK toyT { toyW with treeNone := .leaf [.setLastCode] (.ret [("F", .field "F"), ("F_CHECKSUM", .field "F_CHECKSUM")] true) } = false ∧
+    c01OK toyT { toyW with treeNone := .leaf [.setLastCode] (.ret [("F", .field "F"), ("F_CHECKSUM", .field "F_CHECKSUM")] true) } = true := by decide +kernel
 
 end IRModel.Props.Wrapper
